@@ -2220,6 +2220,8 @@ func main() {
 	writeStateful(*out)
 	// the slab engine (array slab restructuring) writes <out>/TransSlabs.lean
 	writeSlabs(*out)
+	// the object engine (slab-level restructuring of the maps) writes <out>/TransMapSlabs.lean
+	writeObjMaps(*out)
 	path := filepath.Join(*out, "Trans.lean")
 	content := b.String()
 	if old, err := os.ReadFile(path); err == nil && string(old) == content {
